@@ -22,7 +22,8 @@ from lib import ws
 PART, NPART = part(), npart()
 NMAX = 4 if os.environ.get("VERIF_TIER", "quick") == "thorough" else 3
 SRV = ws.make_server()
-SHAPES = ["use", "extends", "submodule", "pointer", "associate", "procptr", "binding", "include", "extends_files"]
+SHAPES = ["use", "extends", "submodule", "pointer", "associate", "procptr", "binding", "include", "extends_files",
+          "mixed", "include_multi", "dummy_iface", "include_in_proc"]
 WORD = re.compile(r"[A-Za-z_]\w*")
 
 
@@ -91,6 +92,31 @@ def render(shape: str, n: int, succ):
             files[f"{R}/i{i}.f90"] = f"integer :: k{i}\ninclude 'i{succ[i]}.f90'\n"
         files[f"{R}/main.f90"] = "program p\ninclude 'i0.f90'\nk0 = k0 + 1\nend program p\n"
         return files
+    if shape == "mixed":  # data pointers and procedure pointers linking each other
+        body = ["module m", "contains", "subroutine f()", "end subroutine f", "subroutine g()"]
+        for i in range(n):
+            body.append(f"integer, pointer :: x{i} => x{succ[i]}" if i % 2 == 0 else f"procedure(f), pointer :: x{i} => x{succ[i]}")
+        body += [f"x{i} = 1" if i % 2 == 0 else f"call x{i}()" for i in range(n)] + ["end subroutine g", "end module m"]
+        return {f"{R}/m.f90": "\n".join(body) + "\n"}
+    if shape == "include_multi":  # an INCLUDE cycle with two outside includers
+        files = {}
+        for i in range(n):
+            files[f"{R}/i{i}.f90"] = f"integer :: k{i}\ninclude 'i{succ[i]}.f90'\n"
+        files[f"{R}/main.f90"] = "program p\ninclude 'i0.f90'\nk0 = k0 + 1\nend program p\n"
+        files[f"{R}/y.f90"] = "include 'i0.f90'\ninteger :: yv\n"
+        return files
+    if shape == "dummy_iface":  # a dummy procedure whose interface is the enclosing (or another such) procedure
+        body = ["module m", "contains"]
+        for i in range(n):
+            body += [f"subroutine s{i}(p)", f"procedure(s{succ[i]}) :: p", "call p(p)", f"end subroutine s{i}"]
+        body += ["end module m"]
+        return {f"{R}/m.f90": "\n".join(body) + "\n"}
+    if shape == "include_in_proc":  # the INCLUDE sits inside a procedure that is itself included content
+        files = {}
+        for i in range(n):
+            files[f"{R}/i{i}.f90"] = f"integer :: k{i}\nsubroutine sa{i}()\ninclude 'i{succ[i]}.f90'\nk{i} = 1\nend subroutine sa{i}\n"
+        files[f"{R}/main.f90"] = "program p\ninclude 'i0.f90'\nend program p\n"
+        return files
     raise AssertionError(shape)
 
 
@@ -119,18 +145,34 @@ def probe_all(files) -> bool:
     return True
 
 
-def cycles(k: int, n: int, s0: int, s1: int, s2: int, s3: int) -> bool:
-    """every functional graph on n nodes of catalogue shape k: indexed, diagnosed and queried at every identifier
-    pre: 0 <= k < len(SHAPES) and 1 <= n <= NMAX and (k * 5 + n + s0 * 3) % NPART == PART
+def _reorder(files, order):
+    """the order in which the files are opened (= indexed and linked): as given, reversed, rotated"""
+    items = list(files.items())
+    if order == 1:
+        items.reverse()
+    elif order == 2:
+        items = items[1:] + items[:1]
+    elif order == 3:
+        items = items[-1:] + items[:-1]
+    return dict(items)
+
+
+def cycles(k: int, n: int, s0: int, s1: int, s2: int, s3: int, order: int) -> bool:
+    """every functional graph on n nodes of catalogue shape k, the files opened in 4 different orders: indexed,
+    diagnosed and queried at every identifier
+    pre: 0 <= k < len(SHAPES) and 1 <= n <= NMAX and (k * 5 + n + s0 * 3) % NPART == PART and 0 <= order <= 3
     pre: 0 <= s0 < n and 0 <= s1 < n and 0 <= s2 < n and 0 <= s3 < n
     pre: (n > 1 or s1 == 0) and (n > 2 or s2 == 0) and (n > 3 or s3 == 0)
     post: _
     """
     tick("cycles")
-    k, n = conc(k, 0, len(SHAPES) - 1), conc(n, 1, NMAX)
+    k, n, order = conc(k, 0, len(SHAPES) - 1), conc(n, 1, NMAX), conc(order, 0, 3)
     succ = [conc(s, 0, n - 1) for s in (s0, s1, s2, s3)][:n]
     with NoTracing():  # k, n, succ are concrete here: the indexed program runs at native speed
-        res, hung = ws.guarded(lambda: probe_all(render(SHAPES[k], n, succ)), 20)
+        files = render(SHAPES[k], n, succ)
+        if len(files) == 1 and order > 0:
+            return True
+        res, hung = ws.guarded(lambda: probe_all(_reorder(files, order)), 20)
         ok = bool(res) and not hung
     tock("cycles")
     return ok
